@@ -29,7 +29,7 @@ def _nt(rec):
 
 def _cases(dss, rng, stride=1, schemes=None):
     schemes = schemes or SCHEMES
-    cs = ac.cases(dss, EXACT, schemes, every={c: stride for c in EXACT})
+    cs = ac.cases(dss, EXACT, schemes, every={c: stride for c in EXACT}, namings=["ints", "letters", "collide", "big"])
     # the user-facing selector additionally in an environment where the CPLEX API is present
     cs += ac.cases(dss, ["Exact(opt)", "Exact(noopt)"], schemes, env="standin",
                    every={"Exact(opt)": stride, "Exact(noopt)": stride})
@@ -94,7 +94,7 @@ def stages(tier, rng, only=None):
               ([0, 7, 2, 1, 3, 1], [3, 3, 0, 1, 1, 2], 10)]
     out.append(ac.stage("all_optimal_with_tenths", PID, lambda: ac.cases(
         grids.datasets(3, 2)[::2] + [ac.cyclic_dataset(rng, 3, 4, incomplete=k % 3 == 2) for k in range(60 if tier == "quick" else 600)],
-        ["ExactCplex(noopt)"], tenths, flags=(0,)), _nt))
+        ["ExactCplex(noopt)"], tenths + ac.MIXEDMAG[2:], flags=(0,), namings=["ints", "letters", "collide"]), _nt))
     out.append(ac.stage("eleven_plus", PID, lambda: ac.cases(
         [ac.eleven_plus_dataset(rng) for _ in range(6 if tier == "quick" else 40)],
         ["ExactPulp", "Exact(opt)", "Exact(noopt)", "ExactCplex(opt)", "ExactOptim1"], SCHEMES, flags=(1,)), _nt))
